@@ -8,17 +8,17 @@ CLAIMS = {
  },
  'C02': {
   'technique': 'static analysis: MIR panic-site enumeration over the call graph of the comparison impls (debug-profile facts) with interval/dominance discharge and a reviewed-site table; decision-table extraction from the CFG of Ord::cmp / the equality prologue',
-  'text': 'Partial, structural: decides "no comparison of finite decimals panics or depends on build profile" by enumerating every may-panic site (overflow/bounds asserts, debug_assert failures, unwrap/expect, slicing) reachable from PartialEq/PartialOrd/Ord on BigDecimal/BigDecimalRef; each is discharged by interval reasoning or matches a reviewed entry whose guarding condition is re-checked. ORDER-TABLE: the decision table of <BigDecimalRef as Ord>::cmp is extracted from its CFG (14 cells over scale order x difference-fits-u64 x sign + the sign prologue): the right digit comparison with the right orientation, reversed exactly for negative operands, no magnitude ordering returned without the sign correction; checked_diff meets its contract cell by cell; check_equality_bigdecimal_ref\'s prologue (zero/zero, differing signs, equal scales, overflowing gap) and the orientation (larger-scale digits vs smaller-scale digits x 10^diff) of every oriented helper call are checked. Does not decide the digit-level strategies inside compare_scaled_biguints and the equality loops.',
+  'text': 'Partial, structural: decides "no comparison of finite decimals panics or depends on build profile" by enumerating every may-panic site (overflow/bounds asserts, debug_assert failures, unwrap/expect, slicing) reachable from PartialEq/PartialOrd/Ord on BigDecimal/BigDecimalRef; each is discharged by interval reasoning or matches a reviewed entry whose guarding condition is re-checked. ORDER-TABLE: the decision table of <BigDecimalRef as Ord>::cmp is extracted from its CFG (14 cells over scale order x difference-fits-u64 x sign + the sign prologue): the right digit comparison with the right orientation, reversed exactly for negative operands, no magnitude ordering returned without the sign correction; checked_diff meets its contract cell by cell; check_equality_bigdecimal_ref\'s prologue (zero/zero, differing signs, equal scales, overflowing gap) and the orientation (larger-scale digits vs smaller-scale digits x 10^diff) of every oriented helper call are checked. SCAN-GAP: in the digit loops no element pulled with next() is skipped while its iterator is consumed further. Does not decide the arithmetic of the digit-level strategies inside compare_scaled_biguints and the equality loops.',
   'note': TRUST + ' Reviewed entries (tables/reviewed_panic_sites.json) carry human arguments; helper summaries count_decimal_digits_uint = digit count.',
  },
  'C03': {
   'technique': 'static analysis: MIR panic-site enumeration on Hash::hash (debug-profile facts)',
-  'text': 'Deliberately weak, partial claim: hashing does not panic (every may-panic site reachable from Hash::hash discharged or reviewed under the property\'s own bound |scale| <= 10^5). Agreement of hash with equality is NOT decided.',
+  'text': 'Partial claim: hashing does not panic (every may-panic site reachable from Hash::hash discharged or reviewed under the property\'s own bound |scale| <= 10^5), plus three necessary conditions of agreement with ==: no raw representation field (int_val, scale) is fed to the Hasher and both are read (HASH-FIELDS); on every zero path the hashed datum is the plain digit string whatever the scale (HASH-ZERO); every path feeds the state by the same sequence of Hasher calls, so hashers that mix each write separately cannot split equal values (HASH-SHAPE). That the hashed bytes of equal non-zero values coincide is NOT decided.',
   'note': TRUST,
  },
  'C05': {
   'technique': 'static analysis: MIR panic-site enumeration over the parser call graph with interval/dominance discharge and reviewed UTF-8-boundary sites',
-  'text': 'Partial, structural: decides "no input string makes the parser panic" (all may-panic sites reachable from from_str_radix/from_str/parse_bytes discharged or reviewed with re-checked guards). R-TABLE: every Ok(..) return of from_str_radix lies on the radix == 10 edge and the scale is computed from the parsed exponent through checked operations and widening casts only. GATEWAY (who-may-call): from_str and parse_bytes reach an integer/float text parser only through from_str_radix, so neither the radix check nor the decimal grammar can be bypassed. The accepted grammar and the denoted value are NOT decided.',
+  'text': 'Partial, structural: decides "no input string makes the parser panic" (all may-panic sites reachable from from_str_radix/from_str/parse_bytes discharged or reviewed with re-checked guards). R-TABLE: every Ok(..) return of from_str_radix lies on the radix == 10 edge and the scale is computed from the parsed exponent through checked operations and widening casts only. GATEWAY (who-may-call): from_str and parse_bytes reach an integer/float text parser only through from_str_radix, so neither the radix check nor the decimal grammar can be bypassed. HEAD-OF-NUMERAL: the delegated integer parser can see a sign only at the head of the numeral (the '.+5' class, repaired). The accepted grammar and the denoted value are NOT decided.',
   'note': TRUST + ' str::find returns a char-boundary index; BigInt::from_str_radix panics only for radix outside 2..=36.',
  },
  'C20': {
@@ -38,7 +38,7 @@ CLAIMS = {
  },
  'C15': {
   'technique': 'static analysis: sign-dispatch decision tables from the CFG; structural forwarder and projection checks on path outcome terms; forbidden-callee reachability over the resolved call graph',
-  'text': 'Partial, structural: to_u64/to_u128 map negative decimals to None and zero to Some(0), to_i64/to_i128 map zero to Some(0), and every other (sign, scale==0?) cell ends in a checked integer conversion of the digits or of the value truncated to scale 0 (24 cells, exhaustive over the dispatch atoms); the owned ToPrimitive methods return the same-named method of self.to_ref(); all 20 From<int>/From<&int>, From<BigInt>, From<(T,i64)>, FromPrimitive::from_i*/u*, ToBigInt are exact projections with scale literal 0; no flooring/euclidean division is reachable from the conversions or the truncating rescale. NOT decided: the MIN boundary arithmetic, is_integer.',
+  'text': 'Partial, structural: to_u64/to_u128 map negative decimals to None and zero to Some(0), to_i64/to_i128 map zero to Some(0), and every other (sign, scale==0?) cell ends in a checked integer conversion of the digits or of the value truncated to scale 0 (24 cells, exhaustive over the dispatch atoms); the owned ToPrimitive methods return the same-named method of self.to_ref(); all 20 From<int>/From<&int>, From<BigInt>, From<(T,i64)>, FromPrimitive::from_i*/u*, ToBigInt are exact projections with scale literal 0; no flooring/euclidean division is reachable from the conversions or the truncating rescale. The MIN boundary of to_i64/to_i128 is a checked 3-cell table (d < 2^(W-1) -> -(d as iW); == -> MIN; > -> None; no wrapping arithmetic). NOT decided: is_integer.',
   'note': TRUST + ' num-bigint `/` truncates toward zero; BigInt/BigUint::to_<int> returns None exactly on overflow.',
  },
  'C10': {
@@ -63,7 +63,7 @@ CLAIMS = {
  },
  'C04': {
   'technique': 'static analysis: provenance of the Display thresholds; literal-confinement (alphabet) rule over every output sink in the rendering call graph, including parsed format templates',
-  'text': 'Partial, structural: (1) default Display switches notation on the two generated thresholds (passed in order, both compared, no other literal threshold on a scale-derived value); (2) every string/char/byte literal and every literal piece of a format template that reaches an output sink on the call graph of Display, {:e}, {:E}, scientific, engineering and plain notation lies in the parser\'s alphabet {0-9 . e E + - _} - a necessary condition of re-parseability. Round-trip equality, digit/scale preservation and the decimal-point arithmetic are NOT decided.',
+  'text': 'Partial, structural: (1) default Display switches notation on the two generated thresholds (passed in order, both compared, no other literal threshold on a scale-derived value); (1b) after an in-place right shift of the digit bytes the zero fill stops before the moved digits (MOVE-THEN-CLEAR); (2) every string/char/byte literal and every literal piece of a format template that reaches an output sink on the call graph of Display, {:e}, {:E}, scientific, engineering and plain notation lies in the parser\'s alphabet {0-9 . e E + - _} - a necessary condition of re-parseability. Round-trip equality, digit/scale preservation and the decimal-point arithmetic are NOT decided.',
   'note': TRUST + ' fmt::Arguments template encoding as documented in core::fmt for this toolchain.',
  },
  'C16': {
@@ -73,7 +73,7 @@ CLAIMS = {
  },
  'C07': {
   'technique': 'static analysis: provenance of Context fields at the final rounding sink; own-body panic-site enumeration of the precision-to-scale conversion',
-  'text': 'Partial, structural: Context::{round_decimal, round_decimal_ref, add_refs, add_refs_into} and BigDecimalRef::round_with_context deliver the result of a rounding routine that receives ctx.precision and ctx.rounding; with_precision_round forwards its mode unchanged to with_scale_round and converts precision to scale through checked arithmetic only (the single may-panic site is the documented expect, no integer `as` cast). The rounding increment of with_prec (and of impl_division) is computed from a magnitude or under an established sign (R-SIGN iii), and add_refs_into rounds exactly a + b. The digit arithmetic of with_prec and digit counting are NOT decided.',
+  'text': 'Partial, structural: Context::{round_decimal, round_decimal_ref, add_refs, add_refs_into} and BigDecimalRef::round_with_context deliver the result of a rounding routine that receives ctx.precision and ctx.rounding; with_precision_round forwards its mode unchanged to with_scale_round and converts precision to scale through checked arithmetic only (the single may-panic site is the documented expect, no integer `as` cast). The rounding increment of with_prec (and of impl_division) is computed from a magnitude or under an established sign (R-SIGN iii), with_prec\'s tie rule cannot come from the configurable default mode (FIXED-TIE), and add_refs_into rounds exactly a + b. The digit arithmetic of with_prec and digit counting are NOT decided.',
   'note': TRUST,
  },
  'C18': {
@@ -93,7 +93,7 @@ CLAIMS = {
  },
  'C19': {
   'technique': 'static analysis: the inductive step of the program-level property via scale-parametric dimension typing; by-value predicate check',
-  'text': 'Partial, structural: the quantifier over programs is discharged by induction on program length from per-operation exactness for ARBITRARY operand representations: R-SCALE\'s proofs are parametric in the operands\' scales and digits, all compound-assignment bodies are covered, and every zero/one shortcut path is verified under the value fact (x:=0, x:=1) whatever the scale; is_zero looks only at the unscaled integer and is_one is by-value equality. Comparisons/hashes taken along the way and normalized()\'s loop are NOT decided.',
+  'text': 'Partial, structural: the quantifier over programs is discharged by induction on program length from per-operation exactness for ARBITRARY operand representations: R-SCALE\'s proofs are parametric in the operands\' scales and digits, all compound-assignment bodies are covered, and every zero/one shortcut path is verified under the value fact (x:=0, x:=1) whatever the scale; is_zero looks only at the unscaled integer and is_one is by-value equality. The comparison/hash/normalisation clause re-establishes the ORDER-TABLE, SCAN-GAP, HASH-* and NORMAL-FORM necessary conditions of C02/C03/C18. The digit-level comparison arithmetic and the hashed bytes themselves are NOT decided.',
   'note': TRUST,
  },
 }
